@@ -454,7 +454,11 @@ func (s *Storer) newAofWCloseObserver(w *AofWriter, ds *dataSet) func(args ...in
 		size := args[1].(int64)
 
 		if size == 0 {
-			ds.trimLastEmptyAof()
+			// the empty file is removed and its segment leaves the data set : a reader that already
+			// follows it would never be closed by the data set nor find a successor, end it here
+			if aof := ds.trimLastEmptyAof(); aof != nil {
+				aof.CloseReaders()
+			}
 			return
 		}
 
